@@ -9,7 +9,19 @@ From Glb Require Import Lib.RouteBytes Lib.RouteSpec Model.Router Proofs.RouterP
     (index or slice out of range), otherwise the list of relay-handler invocations, each
     with the selected route (or the no-route info) and the request's [Params].
     [match_spec] (Lib/RouteSpec.v) is the table-level reading of the documented rules and
-    never mentions the trie.  Everything is quantified over arbitrary byte strings. *)
+    never mentions the trie.  Everything is quantified over arbitrary byte strings.
+
+    Two remarks on what is proved where.
+    - "Exactly one handler, exactly once" is STRUCTURAL in the model: [serve_http] follows
+      ServeHTTP, which calls [mux.relayHandler(store)] once after findRoute, so it builds a
+      singleton list whenever findRoute does not panic.  What the theorems add is that findRoute
+      never panics and WHICH target is in the singleton.  That the real Mux invokes exactly one
+      handler is COUNTED by the harness on every request (outcomes calls<n> / panic are
+      violations), not derived from the source.
+    - Two quirks of the code are hard-coded in the specification rather than hidden: the FIRST
+      BYTE of every pattern and of every request path is ignored whatever it is ([segments] splits
+      [tl s]), and every path of at most one byte ("", "/", "x") behaves as "/" ([match_spec]'s
+      [[ [] ]] case: the routes with the empty pattern are tried first). *)
 
 (** Exactly one handler invocation, never a panic. *)
 Theorem C04_no_panic_one_call : forall routes table path method,
